@@ -3,16 +3,6 @@ CONSTANTS Level = 1
  MaxFiles = 2
  MaxSecs = 2
  MaxEntries = 2
-INVARIANT InputsWellFormed
-INVARIANT ComposeAgree
-INVARIANT Total
-INVARIANT SectionsIndependent
-INVARIANT ConstantsFirst
-INVARIANT OverridePerKey
-INVARIANT UntouchedSectionKeepsValues
-INVARIANT UseBeforeDefIsError
-INVARIANT LiteralsLoad
-INVARIANT SplitLaw
-INVARIANT GroupingIrrelevant
+INVARIANT Laws
 CHECK_DEADLOCK FALSE
 POSTCONDITION EmitAlphabet
